@@ -252,7 +252,10 @@ impl Scheduler for SimScheduler {
                     // freeze the current task if armed and it sits at an interesting point
                     if self.frozen.is_none() && self.armed > 0 && run_ids.len() > 1 {
                         if let Some(c) = cur {
-                            let interesting = matches!(yield_kind, 1 | 2 | 3 | 4 | 6);
+                            // mostly the classified points; one time in eight any other scheduling
+                            // point (a plain lock acquisition, a channel operation, a join): windows
+                            // between two critical sections of one call are such points
+                            let interesting = matches!(yield_kind, 1 | 2 | 3 | 4 | 6) || (yield_kind == 0 && self.rng.below(8) == 0);
                             if interesting && run_ids.contains(&c) {
                                 self.armed -= 1;
                                 self.frozen = Some(Frozen { victim: c, since: step });
